@@ -107,6 +107,12 @@ pub fn run(ctx: &Ctx, out: &mut CaseOut) {
                     match o {
                         Outcome::Answer(a) => {
                             if &a != f {
+                                if std::env::var_os("VERIF_TRACE").is_some() && is_slg {
+                                    eprintln!("[mismatch] fresh={} warm={} subsumed_warm={}", disp(f), disp(&a), slg_subsumed_answers(&mut slg_solver));
+                                    for t in slg_solver.verif_tables() {
+                                        eprintln!("[table] {} co={} fl={} answers={} amb={} cond={} strands={}", t.goal_body, t.coinductive, t.floundered, t.answers, t.ambiguous_answers, t.answers_with_delayed_subgoals, t.strands);
+                                    }
+                                }
                                 let trivial = |s: &Option<chalk_solve::Solution<I>>| matches!(s, Some(chalk_solve::Solution::Unique(c)) if !c.value.subst.is_empty(chalk_integration::interner::ChalkIr) && c.value.subst.is_identity_subst(chalk_integration::interner::ChalkIr));
                                 let ambig = |s: &Option<chalk_solve::Solution<I>>| s.as_ref().map_or(false, |s| s.is_ambig());
                                 let sig = if delayed && a.is_none() && f.is_some() {
@@ -114,6 +120,9 @@ pub fn run(ctx: &Ctx, out: &mut CaseOut) {
                                 } else if is_slg && f.is_none() && a.is_some() && fresh_slg_stale(&l, &p.goal) {
                                     // it is the fresh solve that lost the answer (F11 within one search)
                                     Some("slg:stale-delayed-answer-table")
+                                } else if is_slg && matches!(&a, Some(chalk_solve::Solution::Ambig(chalk_solve::Guidance::Unknown))) && slg_goal_table_floundered(&mut slg_solver, &p.goal) {
+                                    // F36: an earlier goal consumed this table past the size limit and left it marked floundered
+                                    Some("slg:floundered-table-reused")
                                 } else if !is_slg && truncation_pair(&a, f) && derivation_grows(&w, gi) {
                                     Some("recursive:size-truncation-depends-on-cache")
                                 } else if is_slg && ((trivial(&a) && ambig(f)) || (trivial(f) && ambig(&a))) {
